@@ -1,6 +1,5 @@
 import typing as T
 import random
-import math
 
 
 class UpdatableRandomRange:
@@ -105,9 +104,9 @@ def random_range(start: int, stop: int) -> T.Generator[int, None, None]:
     multiplier = (
         4 * (maximum // 4) + 1
     )  # Pick a multiplier 1 greater than a multiple of 4.
-    modulus = int(
-        2 ** math.ceil(math.log2(maximum))
-    )  # Pick a modulus just big enough to generate all numbers (power of 2).
+    modulus = 1 << (
+        maximum - 1
+    ).bit_length()  # Pick a modulus just big enough to generate all numbers (power of 2).
     # Track how many random numbers have been returned.
     found = 0
     while found < maximum:
